@@ -45,7 +45,10 @@ def build_case(beh, name, shape_seed=0):
         for o in ops:
             k = o["op"]
             if k in ("defer", "lazy", "idle"):
-                res.append({"op": k, "item": item(o["item"])})
+                extra = None
+                if o.get("od"):
+                    extra = {"ondrop": [{"op": "defer", "via": "deferrer", "item": item(o["od"])}]}
+                res.append({"op": k, "item": item(o["item"], extra)})
             elif k == "after":
                 res.append({"op": "after", "tid": o["tid"], "d": [o["dd"], 0], "item": item(o["item"])})
             elif k == "run":
@@ -77,7 +80,7 @@ KEYS = {
     "notify": ["aid", "cause", "zombie"], "zombie": ["aid", "res"], "mkret": ["rid", "kind"],
     "ret": ["rid", "val"], "retdrop": ["rid"], "retcb": ["rid", "has", "val"],
     "rcall": ["rid", "aid", "has", "val"], "keepown": ["oid"], "keepret": ["rid"],
-    "dropstakker": [], "droppedstakker": [], "setlogger": ["levels"],
+    "dropstakker": [], "droppedstakker": [], "setlogger": ["levels"], "dh": ["item"], "dhe": ["item"],
     "logrec": ["id", "level", "parent", "marker"],
     "tupd": ["tid", "kind", "t", "res"], "tdelb": ["tid"], "tdel": ["tid", "kind", "res"],
     "tact": ["tid", "kind", "res"], "nexp": ["has", "x"],
